@@ -219,7 +219,7 @@ func vbCIDSweep(thorough bool, fn func(vbCIDCase)) {
 					b[v] = true
 				}
 			}
-			if area <= 64 || (thorough && area <= 1024) {
+			if area <= 64 || (thorough && area <= 256) {
 				for v := 0; v <= area; v++ {
 					b[v] = true
 				}
